@@ -11,8 +11,9 @@ def run(ctx):
     model_check(ctx, SPEC, "MC_Checkpointer", "MC_Checkpointer.cfg" if ctx.quick() else "MC_Checkpointer_thorough.cfg", timeout=3000)
     ctx.cov["exhaustive"] = True
     behs = behaviours(ctx, SPEC, "MC_Checkpointer", "Beh_Checkpointer.cfg")            # all behaviours of a small instance
-    sim = behaviours(ctx, SPEC, "MC_Checkpointer", "Sim_Checkpointer.cfg", num=20 if ctx.quick() else 200, depth=14)
-    behs += sim[:2000 if ctx.quick() else 30000]
+    behs += behaviours(ctx, SPEC, "MC_Checkpointer", "Beh5_Checkpointer.cfg")          # depth 5 over two tokens (tick, late lower token, tick)
+    sim = behaviours(ctx, SPEC, "MC_Checkpointer", "Sim_Checkpointer.cfg", num=600 if ctx.quick() else 6000, depth=14)
+    behs += sim[:3000 if ctx.quick() else 30000]
     replay_and_validate(ctx, behs)
     system_level(ctx)
     ctx.cov["rule"] = ("behaviours = every action sequence of length 4 over 3 tokens (all three token forms) x thresholds {0,100} plus seeded TLC simulations of length 12 over "
